@@ -197,17 +197,12 @@ Theorem C10_ghost_is_committed :
     exists a', c_acct s = Some a' /\ (a', c_ghost s) = fold_left commit_atomic cops (a0, slots).
 Proof. exact ghost_is_committed. Qed.
 
-(* a database without storage for absent / empty / code-less nonce-less accounts *)
-Definition db_wf (d : db) : Prop :=
-  forall a, (match db_basic d a with None => true | Some i => info_is_empty i || has_no_code_and_nonce i end) = true ->
-            forall k, db_storage d a k = 0.
-
 Theorem C10_flip_zero_of_db_wf :
   forall d a, db_wf d -> acct_wf (load_pair d a) /\
     (flippable None (load_pair d a) = true -> forall k, db_storage d a k = 0) /\
     (flippable (Some (load_pair d a)) (load_pair d a) = true -> forall k, db_storage d a k = 0).
 Proof.
-  intros d a Hwf. specialize (Hwf a). unfold load_pair, flippable, flippable_acct, acct_wf in *.
+  intros d a Hwf. specialize (Hwf a). unfold bare, load_pair, flippable, flippable_acct, acct_wf in *.
   destruct (db_basic d a) as [i|]; simpl in *.
   - destruct (info_is_empty i) eqn:Ee; simpl in *.
     + repeat split; try discriminate; intros _; now apply Hwf.
